@@ -136,9 +136,9 @@ Proof.
 Qed.
 
 (** The API variables of a valid result, read off the internal variables with which the loop was entered. *)
-Lemma tail_variables : forall s es0 voi ivs2 r h,
+Lemma tail_variables : forall s es0 voi ivs2 hx r h,
   ivs_ok s ivs2 -> Forall (eq_inv ivs2) es0 ->
-  tail_x s es0 voi ivs2 = (Done r, h) -> valid_type (r_type r) = true ->
+  tail_y s es0 voi ivs2 hx = (Done r, h) -> valid_type (r_type r) = true ->
   r_voi r = voi /\
   (forall a, In a (all_avars r) ->
      exists p, p < length ivs2 /\ iv_cls (geti ivs2 p) = cls_of s (av_var a) /\
@@ -146,7 +146,7 @@ Lemma tail_variables : forall s es0 voi ivs2 r h,
   (forall p, p < length ivs2 -> iv_external (geti ivs2 p) = true ->
      exists a, In a (all_avars r) /\ av_type a = AExternal /\ cls_of s (av_var a) = iv_cls (geti ivs2 p)).
 Proof.
-  intros s es0 voi ivs2 r h Hok Heq H Hvalid. unfold tail_x in H.
+  intros s es0 voi ivs2 hx r h Hok Heq H Hvalid. unfold tail_y in H.
   destruct (loop s (loop_fuel es0) 1 false (mkCs ivs2 0 0) es0) as [[st es1]|] eqn:El; [|discriminate].
   inversion H; subst r. clear H.
   destruct (loop_inv _ _ _ _ _ _ _ _ El Heq) as (L1 & L2). cbn [cs_ivs] in *.
@@ -250,6 +250,23 @@ Proof.
       * intros (m1 & r1 & [->|A] & B & C); [congruence|]. exists m1, r1. split; [exact A|]. split; assumption.
 Qed.
 
+Lemma rescue_geti_keeps : forall b X p, p < length X ->
+  iv_cls (geti (map (state_rescue b) X) p) = iv_cls (geti X p) /\
+  iv_external (geti (map (state_rescue b) X) p) = iv_external (geti X p) /\
+  (iv_type (geti (map (state_rescue b) X) p) = iv_type (geti X p) \/
+   (iv_type (geti X p) = VShouldBeState /\ iv_type (geti (map (state_rescue b) X) p) = VState)).
+Proof.
+  intros b X p Hp. rewrite geti_map by exact Hp. destruct (state_rescue_keeps b (geti X p)) as (A & B & _ & _ & C).
+  split; [exact A|]. split; [exact B|exact C].
+Qed.
+
+Lemma rescue_ok : forall s b X es, ivs_ok s X -> Forall (eq_inv X) es ->
+  ivs_ok s (map (state_rescue b) X) /\ Forall (eq_inv (map (state_rescue b) X)) es.
+Proof.
+  intros s b X es Hok Heq. pose proof (state_rescue_evolves s b X) as Hev.
+  split; [eapply evolves_ivs_ok; eassumption|]. eapply Forall_impl; [|exact Heq]. intros e He. eapply eq_inv_evolves; eassumption.
+Qed.
+
 (** externals_exact: in a valid result of the repaired code, a variable is of type EXTERNAL exactly when its class
     is marked through a variable of the model and is not the class of the variable of integration. *)
 Theorem externals_exact : forall s marks r,
@@ -271,9 +288,12 @@ Proof.
   assert (Hok2 : ivs_ok s (remark f 0 U)) by (apply remark_ivs_ok; exact Uok).
   assert (Heq2 : Forall (eq_inv (remark f 0 U)) es0).
   { eapply Forall_impl; [|exact B2]. intros e He. eapply eq_ok_eq_inv. rewrite remark_length, Ulen. exact He. }
-  symmetry in Hspec.
-  destruct (tail_variables s es0 voi (remark f 0 U) r _ Hok2 Heq2 Hspec Hvalid) as (Hvoi & Hvars & _).
-  destruct (Hvars a Ha) as (p & Hp & Hc & Hx). rewrite remark_length in Hp.
+  symmetry in Hspec. unfold tail_x in Hspec.
+  destruct (rescue_ok s state_rescue_fix _ _ Hok2 Heq2) as (Hok2R & Heq2R).
+  destruct (tail_variables s es0 voi _ _ r _ Hok2R Heq2R Hspec Hvalid) as (Hvoi & Hvars & _).
+  destruct (Hvars a Ha) as (p & Hp & Hc & Hx). rewrite map_length, remark_length in Hp.
+  assert (HpR : p < length (remark f 0 U)) by (rewrite remark_length; exact Hp).
+  destruct (rescue_geti_keeps state_rescue_fix (remark f 0 U) p HpR) as (RC & RX & _). rewrite RC in Hc. rewrite RX in Hx.
   rewrite Hx. rewrite (remark_external f U p Uplain Hp).
   rewrite remark_geti in Hc by exact Hp. rewrite apply_mark_cls in Hc.
   destruct Ukept as (_ & Ukept). destruct (Ukept p) as (Kc & _).
@@ -604,11 +624,13 @@ Proof.
   assert (Hok2 : ivs_ok s (remark f 0 U)) by (apply remark_ivs_ok; exact Uok).
   assert (Heq2 : Forall (eq_inv (remark f 0 U)) es0).
   { eapply Forall_impl; [|exact B2]. intros e He. eapply eq_ok_eq_inv. rewrite remark_length, Ulen. exact He. }
-  unfold tail_x in Hspec.
-  destruct (loop s (loop_fuel es0) 1 false (mkCs (remark f 0 U) 0 0) es0) as [[st es1]|] eqn:El; [|discriminate].
+  unfold tail_x, tail_y in Hspec.
+  destruct (rescue_ok s state_rescue_fix _ _ Hok2 Heq2) as (Hok2R & Heq2R).
+  set (ivsR := map (state_rescue state_rescue_fix) (remark f 0 U)) in *.
+  destruct (loop s (loop_fuel es0) 1 false (mkCs ivsR 0 0) es0) as [[st es1]|] eqn:El; [|discriminate].
   inversion Hspec as [[Hres Hh]]. clear Hspec Hh.
-  destruct (loop_inv _ _ _ _ _ _ _ _ El Heq2) as (L1 & L2). cbn [cs_ivs] in *.
-  pose proof (loop_ext_known _ _ _ _ _ _ _ _ El Heq2 (or_introl eq_refl)) as Hknown. cbn [cs_ivs] in *.
+  destruct (loop_inv _ _ _ _ _ _ _ _ El Heq2R) as (L1 & L2). cbn [cs_ivs] in *.
+  pose proof (loop_ext_known _ _ _ _ _ _ _ _ El Heq2R (or_introl eq_refl)) as Hknown. cbn [cs_ivs] in *.
   unfold finish in Hres.
   destruct (validate_vars (cs_ivs st) (cs_vidx st)) as [[ivs1 vidx1] iss1] eqn:Ev.
   destruct iss1 as [|j1 jr1].
@@ -621,10 +643,13 @@ Proof.
   - subst r. cbn [invalid_result r_issues] in Hi.
     destruct (validate_vars_unused _ _ _ _ _ i Ev Hi Hrule) as (v & Hv & Htype & Hitem).
     apply In_nth with (d := divar) in Hv. destruct Hv as (q & Hq & Hnth). fold (geti (cs_ivs st) q) in Hnth. subst v.
-    pose proof L1 as Hev0. destruct L1 as (Llen & Lstep). rewrite remark_length in Llen.
+    pose proof L1 as Hev0. destruct L1 as (Llen & Lstep). unfold ivsR in Llen. rewrite map_length, remark_length in Llen.
     assert (HqU : q < length U) by lia.
     assert (Hq2 : q < length (remark f 0 U)) by (rewrite remark_length; exact HqU).
-    destruct (Lstep q Hq2) as (C1 & X1 & _ & V1 & T1).
+    assert (HqR : q < length ivsR) by (unfold ivsR; rewrite map_length; exact Hq2).
+    destruct (Lstep q HqR) as (C1 & X1 & _ & V1 & T1).
+    destruct (rescue_geti_keeps state_rescue_fix (remark f 0 U) q Hq2) as (RC & RX & RT). fold ivsR in RC, RX, RT.
+    rewrite RC in C1. rewrite RX in X1.
     (* not external, since an external variable is never left unknown *)
     assert (Hnx : iv_external (geti (remark f 0 U) q) = false).
     { destruct (iv_external (geti (remark f 0 U) q)) eqn:E; [|reflexivity]. exfalso.
@@ -635,8 +660,10 @@ Proof.
       congruence. }
     (* not the variable of integration either: that one keeps its type *)
     unfold f, eff in Hf. destruct (vtype_eqb (iv_type (geti U q)) VVoi) eqn:Et.
-    { apply vtype_eqb_eq in Et. rewrite remark_geti in T1 by exact HqU. rewrite apply_mark_type in T1.
-      destruct T1 as (_ & T2 & _). destruct (T2 Et) as [K|K]; rewrite K in Htype; discriminate. }
+    { apply vtype_eqb_eq in Et.
+      assert (EtR : iv_type (geti ivsR q) = VVoi).
+      { destruct RT as [K|(K & _)]; rewrite remark_geti in K by exact HqU; rewrite apply_mark_type in K; [congruence|congruence]. }
+      destruct T1 as (_ & T2 & _). destruct (T2 EtR) as [K|K]; rewrite K in Htype; discriminate. }
     (* so no mark lands on it *)
     apply marked_classes_In in Hmarked. destruct Hmarked as (m & r0 & M1 & M2 & M3).
     assert (Hrange : in_range s r0 = true).
@@ -646,7 +673,7 @@ Proof.
     apply (cls_pos_unique ivs0 _ _ (proj1 B1) K1); [lia|].
     rewrite K2, M3, Hitem.
     (* the class of the item is the class of the internal variable *)
-    assert (Hokst : ivs_ok s (cs_ivs st)) by (eapply evolves_ivs_ok; [exact Hok2|exact Hev0]).
+    assert (Hokst : ivs_ok s (cs_ivs st)) by (eapply evolves_ivs_ok; [exact Hok2R|exact Hev0]).
     destruct (ivs_ok_geti s (cs_ivs st) q Hokst Hq) as (_ & J & _). rewrite J, C1.
     rewrite remark_geti by exact HqU. rewrite apply_mark_cls. destruct Ukept as (_ & Uk). destruct (Uk q) as (Kc & _).
     exact Kc.
@@ -765,7 +792,7 @@ Proof.
   destruct (vs_issues (analyse_asts s ivs1 es0)) as [|i1 ir1]; [|reflexivity].
   pose proof (check_fold_unfixed s (vs_voi (analyse_asts s ivs1 es0)) pe (vs_ivs (analyse_asts s ivs1 es0)) []) as Hc.
   destruct (fold_left (check_step false s (vs_voi (analyse_asts s ivs1 es0))) pe (vs_ivs (analyse_asts s ivs1 es0), [])) as [ivs2 xi2] eqn:Ec.
-  cbn [fst] in Hc. subst ivs2.
+  cbn [fst] in Hc. subst ivs2. rewrite state_rescue_off.
   destruct (loop s (loop_fuel es0) 1 false (mkCs (vs_ivs (analyse_asts s ivs1 es0)) 0 0) es0) as [[st es1]|]; [|reflexivity].
   cbn [xr_outcome]. rewrite nla_ext_deps_off. reflexivity.
 Qed.
@@ -787,12 +814,13 @@ Proof.
   destruct (build s) as [[ivs0 es0]|] eqn:Eb; [|reflexivity].
   destruct (check_inits s ivs0 0 s) as [|i0 ir0]; [|reflexivity]. cbn [fold_left].
   destruct (vs_issues (analyse_asts s ivs0 es0)) as [|i1 ir1] eqn:Ei; [|reflexivity]. cbn [fold_left].
-  destruct (loop s (loop_fuel es0) 1 false (mkCs (vs_ivs (analyse_asts s ivs0 es0)) 0 0) es0) as [[st es1]|] eqn:El; [|reflexivity].
-  cbn [xr_outcome]. rewrite nla_ext_deps_noext; [reflexivity|].
   destruct (build_spec _ _ _ Eb) as (B1 & B2 & B3).
   pose proof (analyse_asts_plain s ivs0 es0 (build_plain _ _ _ Eb)) as HU.
   assert (Hne : Forall (fun v => iv_external v = false) (vs_ivs (analyse_asts s ivs0 es0))).
   { eapply Forall_impl; [|exact HU]. intros v (A & _). exact A. }
+  rewrite (state_rescue_noext _ _ Hne).
+  destruct (loop s (loop_fuel es0) 1 false (mkCs (vs_ivs (analyse_asts s ivs0 es0)) 0 0) es0) as [[st es1]|] eqn:El; [|reflexivity].
+  cbn [xr_outcome]. rewrite nla_ext_deps_noext; [reflexivity|].
   assert (Heq : Forall (eq_inv (vs_ivs (analyse_asts s ivs0 es0))) es0).
   { destruct (analyse_asts_kept s ivs0 es0) as (L & _).
     eapply Forall_impl; [|exact B2]. intros e He. eapply eq_ok_eq_inv. rewrite L. exact He. }
@@ -839,6 +867,6 @@ Proof.
   destruct (fold_left (mark_step s) marks (ivs0, [], [])) as [[ivs1 pe] xi1].
   destruct (vs_issues (analyse_asts s ivs1 es0)) as [|i1 ir1]; [|inversion H; subst; constructor].
   destruct (fold_left (check_step fixed s (vs_voi (analyse_asts s ivs1 es0))) pe (vs_ivs (analyse_asts s ivs1 es0), [])) as [ivs2 xi2].
-  destruct (loop s (loop_fuel es0) 1 false (mkCs ivs2 0 0) es0) as [[st es1]|]; [|discriminate].
+  destruct (loop s (loop_fuel es0) 1 false _ es0) as [[st es1]|]; [|discriminate].
   inversion H; subst. apply finish_pos_nodup.
 Qed.
